@@ -151,14 +151,18 @@ def run(ctx):
     R.rule("C13-D2d assign_role plumbing", 4, "assign_role receives vendor, class and role of one entry; configured assignments are applied after the defaults")
     init = repo.func(IMG, "EnvelopeStorage.__init__")
     ar_fi = repo.func(IMG, "EnvelopeStorage.assign_role")
-    iouts = [o for o in Evaluator(repo, inline_depth=0).outcomes(init) if o.kind == "return"]
+    reader = kconfig_reader(ctx)
+    ev_init = Evaluator(repo, inline_depth=0)
+    if ev_init.known is not None:
+        ev_init.known = ev_init.known | {reader.fq}  # the reader is a source of its own (kept as a call), wherever it lives now
+    iouts = [o for o in ev_init.outcomes(init) if o.kind == "return"]
     if not iouts:
         raise AnalysisError("EnvelopeStorage.__init__: no normal outcome")
 
     def classify(part):
         if isinstance(part, App) and part.op == "attr:_CLASS_ROLE_ASSIGNMENTS":
             return "defaults"
-        if isinstance(part, App) and part.op == "call" and isinstance(part.args[0], Ref) and getattr(part.args[0].obj, "name", "") == "_get_role_assignments_from_kconfig":
+        if isinstance(part, App) and part.op == "call" and isinstance(part.args[0], Ref) and part.args[0].obj is reader:
             return "configuration"
         if (isinstance(part, Const) and part.v in ([], ())) or (isinstance(part, App) and part.op in ("list", "tuple") and not part.args):
             return None
@@ -190,6 +194,9 @@ def run(ctx):
                     c = e.args[0]
                     n_calls += 1
                     a = list(c.args[2:]) if c.args[1] == Sym("param:self") else list(c.args[1:])
+                    if len(a) == 1 and isinstance(a[0], App) and a[0].op == "starkw" and isinstance(a[0].args[0], App) and a[0].args[0].op == "elem":
+                        # assign_role(**entry): every field of the entry reaches the parameter of its own name
+                        a = [App("idx", (a[0].args[0], Const(k_))) for k_ in ar_fi.params()[1:]]
                     if len(a) != 3 or not all(isinstance(x, App) and x.op == "idx" and isinstance(x.args[0], App) and x.args[0].op == "elem" for x in a):
                         arg_bad.append(repr(c)[:160])
                         continue
@@ -199,8 +206,9 @@ def run(ctx):
                         arg_bad.append(f"{keys} from {len(elems)} entries")
                     it = a[0].args[0].args[0]
                     for g, alt in cases(it):
-                        seq_kinds = [k for k in (classify(p) for p in parts(alt)) if k]
-                        srcs.append(seq_kinds)
+                        for sub in _alternatives_of_parts(parts(alt)):
+                            seq_kinds = [k for k in (classify(p) for p in sub) if k]
+                            srcs.append(seq_kinds)
             # within one path: concatenate in order (alternatives of one iterable are each checked)
             flat = []
             for alt in srcs:
@@ -228,25 +236,30 @@ def configuration_values(ctx):
     few syntactic tests, so one representative per combination of them is a complete decision table (evaluated on the extracted term)."""
     R = ctx.report
     repo = ctx.repo
-    fi = repo.func("build_configuration.configuration", "BuildConfiguration._parse")
+    # anchored at the constructor, private helpers of the class followed: the parsing loop may live in _parse or in __init__ itself
+    fi = repo.func("build_configuration.configuration", "BuildConfiguration.__init__")
     fq = ctx.fq(fi)
     R.rule("C13-D4 quoted configuration values stay text", 5, "per syntactic class of a quoted value: the stored value is the text between the quotes")
-    outs = [o for o in Evaluator(repo, inline_depth=0).outcomes(fi) if o.kind == "return"]
+    evp = Evaluator(repo, inline_depth=2, inline_filter=lambda f: f.cls is fi.cls and f.name.startswith("_") and not f.name.startswith("__"))
+    outs = [o for o in evp.outcomes(fi) if o.kind == "return"]
     stores = [e.args[0] for o in outs for e in all_effects(o.effects) if isinstance(e, App) and e.op == "eff:call" and isinstance(e.args[0], App)
               and e.args[0].op in ("supercall:__setitem__", "meth:__setitem__")]
     stores += [App("x", (e.args[0], e.args[1], e.args[2])) for o in outs for e in all_effects(o.effects) if isinstance(e, App) and e.op == "eff:store"]
     if len(stores) != 1:
         raise AnalysisError(f"{fq}: store of the parsed value not recognised ({len(stores)})")
     val = stores[0].args[-1]
-    raws = [s_ for s_ in subterms(val) if isinstance(s_, App) and s_.op == "meth:group" and s_.args[1:] == (Const("kconfig_value"),)]
+    raws = {s_ for s_ in subterms(val) if isinstance(s_, App) and s_.op == "meth:group" and Const("kconfig_value") in s_.args[1:]}
     if not raws:
         raise AnalysisError(f"{fq}: raw value (group 'kconfig_value') not found in the stored term")
-    RAW = raws[0]
+
+    def bind(raw):
+        # match.group('kconfig_value') is the raw text; group(a, b, ...) the tuple of the named groups
+        return {g_: (raw if len(g_.args) == 2 else tuple(raw if a_ == Const("kconfig_value") else "CONFIG_NAME" for a_ in g_.args[1:])) for g_ in raws}
     table = {'"0042"': "0042", '"0x1F"': "0x1F", '"y"': "y", '"nordicsemi.com"': "nordicsemi.com", '"42"': "42", '""': "", '"n"': "n",
              '"M\u00fcller Ger\u00e4tebau"': "M\u00fcller Ger\u00e4tebau", '"funk\u00b5controller"': "funk\u00b5controller", '"a b&c<d>"': "a b&c<d>"}
     for raw, want in table.items():
         try:
-            got = teval(val, {RAW: raw})
+            got = teval(val, bind(raw))
         except Unknown as e:
             raise AnalysisError(f"{fq}: stored value not evaluable for {raw!r}: {e}")
         R.check("C13-D4 quoted configuration values stay text", got == want and type(got) is type(want), f"{raw} -> {want!r}", mod=fi.module, node=fi.node,
@@ -303,10 +316,38 @@ def template_defaults(ctx):
                 found=f"role {got}" if got else "not a default pair of the storage layer", key_extra=man)
 
 
+def _alternatives_of_parts(ps):
+    """A concatenation whose parts are themselves conditional: every combination of their alternatives, each flattened again."""
+    combos = [[]]
+    for p in ps:
+        alts = [t for _g, t in cases(p)] if isinstance(p, App) and p.op == "phi" else [p]
+        combos = [c + [a_] for c in combos for a_ in alts]
+        if len(combos) > 64:
+            raise AnalysisError("EnvelopeStorage.__init__: too many alternatives of the assignment sources")
+    return combos
+
+
+def kconfig_reader(ctx):
+    """The function that reads role assignments from the build configuration: by its name, or - moved / renamed - the one function
+    of the module that opens a BuildConfiguration and names ManifestRole members."""
+    repo = ctx.repo
+    f = repo.find_func(IMG, "EnvelopeStorage._get_role_assignments_from_kconfig")
+    if f is not None:
+        return f
+    cands = []
+    for q, g in repo.mod(IMG).functions.items():
+        names = {n.id for n in ast.walk(g.node) if isinstance(n, ast.Name)}
+        if {"BuildConfiguration", "ManifestRole"} <= names:
+            cands.append(g)
+    if len(cands) != 1:
+        raise AnalysisError(f"anchor function {IMG}:EnvelopeStorage._get_role_assignments_from_kconfig vanished ({len(cands)} candidates by role)")
+    return cands[0]
+
+
 def kconfig_rules(ctx, ev):
     R = ctx.report
     repo = ctx.repo
-    fi = repo.func(IMG, "EnvelopeStorage._get_role_assignments_from_kconfig")
+    fi = kconfig_reader(ctx)
     fq = ctx.fq(fi)
     outs = ev.outcomes(fi)
     rets = [o for o in outs if o.kind == "return"]
